@@ -10,4 +10,6 @@ CONSTANTS
   BackupSingleStep = TRUE
   StreamEndDetected = TRUE
   AbortAfterPartial = TRUE
+  EndMarkerOnlyOnSuccess = TRUE
+  CopyErrorReturned = TRUE
 INVARIANTS TypeOK Consistent Complete CutIsError GateReleased
